@@ -80,7 +80,31 @@ def verify_call(probe, state, tinv, before, events, pop_names, ind_names, report
             report("sampler/ind/decision-not-u-below-alpha", "acceptance differs from [fresh uniform < alpha]", acc=acc.tolist(), u=u.tolist(), alpha=alpha.tolist())
             return
         if is_mixture:
-            st("alpha_not_recomputed_mixture", n)
+            # mixture prior: the regularity of an individual in a state is the responsibility-weighted per-cluster regularity OF THAT STATE,
+            # responsibilities = softmax over clusters of -nll_regul_ind_sum_ind (clamped at -100) evaluated on the same state
+            def mix_terms(indep):
+                vals = sh.scratch_eval(dag, indep, ["nll_attach_ind", f"nll_regul_{name}_ind", "nll_regul_ind_sum_ind"])
+                if any(isinstance(v, (sh.Unset, sh.Raised)) for v in vals.values()):
+                    return None
+                a = _val(vals["nll_attach_ind"])
+                r = _val(vals[f"nll_regul_{name}_ind"])
+                tot = vals["nll_regul_ind_sum_ind"]
+                tot = tot.value if isinstance(tot, sh.WeightedTensor) else tot
+                if r.ndim == 2:
+                    probs = torch.softmax(torch.clamp(-tot, -100.0), dim=1)
+                    r = (probs * r).sum(dim=1)
+                return a, r
+
+            ind1 = dict(before)
+            ind1[name] = prev + change
+            m0, m1 = mix_terms(dict(before)), mix_terms(ind1)
+            if m0 is None or m1 is None:
+                st("alpha_not_recomputed_definition_raised", n)
+            else:
+                (a0, r0_), (a1, r1_) = m0, m1
+                alpha_ref = torch.exp(-1 * ((r1_ - r0_) * tinv + (a1 - a0)))
+                st("alpha_recomputed_mixture", n)
+                _judge_alpha(alpha, alpha_ref, u, acc, report, st, "ind", margin)
         else:
             ind0 = dict(before)
             ind1 = dict(before)
@@ -171,6 +195,8 @@ def _judge_alpha(alpha, alpha_ref, u, acc, report, st, who, margin):
     """alpha (observed, float32) vs exp(-D) recomputed from scratch.  Ties (|u - alpha_ref| within the float32
     uncertainty) are counted, not judged."""
     a, r = alpha.double(), alpha_ref.double()
+    st("alpha_plus_inf_decisions", int(torch.isposinf(a).sum()))
+    st("alpha_nan_decisions", int(torch.isnan(a).sum()))
     both_nan = torch.isnan(a) & torch.isnan(r)
     fin = torch.isfinite(a) & torch.isfinite(r)
     rel = torch.zeros_like(a)
